@@ -465,6 +465,20 @@ def exc_name(e):
     return type(e).__name__
 
 
+def guarded(ctx, stream, case, fn):
+    """an unexpected exception of the implementation (or of the oracle fed with its answers) is itself a
+    disagreement: record it with the case and keep going"""
+    try:
+        return fn()
+    except Exception as e:   # noqa
+        import traceback
+        tb = traceback.extract_tb(e.__traceback__)
+        where = next((f'{fr.name}:{fr.lineno}' for fr in reversed(tb) if '/bqskit/' in fr.filename), tb[-1].name)
+        ctx.violation(dict(call=stream, symptom='raises', exception=exc_name(e)), case, 'no exception',
+                      f'{exc_name(e)}: {str(e)[:160]} at {where}', f'{stream}: the implementation raised on a valid input')
+        return None
+
+
 def check_exact_circuit(run: Run, spec, extra, label='exact'):
     """one circuit of the exact stream: oracle + model correspondence.
     extra: dict(explicit=[ints] or None, state=[ints re/im] or None, edits=[...])"""
@@ -1126,9 +1140,8 @@ def run_exact_case(run, rng, spec, extra):
                 ctx.violation(dict(call='check_parameters', kind='model-mismatch'), case, ans[:80], 'ValueError', 'model accepts a wrong-length vector',
                               kind='correspondence', corr='Sim.check_parameters') if not ans.startswith('[ERR none ERR ERR') else None))
         return
-    check_exact_circuit(run, spec, extra)
-    circ = build_circuit(spec)
-    check_order_is_program_order(ctx, circ, spec, case)
+    guarded(ctx, 'exact', case, lambda: check_exact_circuit(run, spec, extra))
+    guarded(ctx, 'exact', case, lambda: check_order_is_program_order(ctx, build_circuit(spec), spec, case))
 
 
 def run(ctx: vf.Ctx):
@@ -1186,7 +1199,7 @@ def run(ctx: vf.Ctx):
     t0 = time.time()
     # ---- builder stream
     for i in range(ctx.n(400, 5000)):
-        check_builder(run_, rng, malformed=(i % 7 == 6))
+        guarded(ctx, 'builder', dict(stream='builder', index=i, seed=ctx.seed), lambda: check_builder(run_, rng, malformed=(i % 7 == 6)))
     run_.flush()
     tm['builder'] = round(time.time() - t0, 1)
     t0 = time.time()
@@ -1194,18 +1207,19 @@ def run(ctx: vf.Ctx):
     for _ in range(ctx.n(200, 3000)):
         rad = gen_radixes(rng, 36)
         spec = gen_bounded_spec(rng, rad, rng.randint(1, 6), 1, True, False)
-        check_param_edits(run_, rng, spec)
+        guarded(ctx, 'param_edits', dict(stream='param_edits', spec=strip_derived(spec)), lambda: check_param_edits(run_, rng, spec))
     run_.flush()
     tm['edits'] = round(time.time() - t0, 1)
     t0 = time.time()
     # ---- float stream
     for _ in range(ctx.n(120, 2500)):
-        check_float_circuit(ctx, rng, gen_real_spec(rng))
+        fspec = gen_real_spec(rng)
+        guarded(ctx, 'float', dict(stream='float', spec=strip_derived(fspec)), lambda: check_float_circuit(ctx, rng, fspec))
     tm['float'] = round(time.time() - t0, 1)
     t0 = time.time()
     # ---- iteration stream
-    for _ in range(ctx.n(1500, 30000)):
-        check_iteration(ctx, rng)
+    for i in range(ctx.n(1500, 30000)):
+        guarded(ctx, 'iteration', dict(stream='iteration', index=i, seed=ctx.seed), lambda: check_iteration(ctx, rng))
     tm['iteration'] = round(time.time() - t0, 1)
     ctx.cov['timings_s'] = tm
     ctx.cov['model_functions_with_theorems'] = ['apply_right', 'apply_left', 'eval_apply_right', 'sv_apply', 'get_unitary', 'get_statevector',
